@@ -155,16 +155,37 @@ def run_sites(chk, facts, rid, cfg):
         if s["ok"] and shown < 12:
             shown += 1
             r["instances"].append(f"{s['body'].path} line {s['line']}: {s['kind']} -- {s['why']}")
-    n_conf = n_untri = 0
+    n_conf = n_untri = n_moved = 0
+
+    def allowed_of(ent):
+        if ent is None:
+            return 0
+        n = ent["n"]
+        return n.get(cfg, max(n.values()) if n else 0) if isinstance(n, dict) else int(n)
+    # allowances of the baseline that the same function does not use on this tree (it was renamed, moved, split, or lost
+    # sites): per (file, signature).  A function whose unproven sites exceed its own allowance may draw on them, so that
+    # moving code inside a file is not an alarm; a genuinely new site still has nothing to draw on.
+    slack = {}
+    for key, ent in base.items():
+        sig = key.split("|", 1)[1]
+        unused = allowed_of(ent) - len(groups.get(key, ()))
+        if unused > 0:
+            fk = (ent.get("file"), sig)
+            slack[fk] = slack.get(fk, 0) + unused
     for key, ss in sorted(groups.items()):
         ent = base.get(key)
-        allowed = 0
-        if ent is not None:
-            n = ent["n"]
-            allowed = n.get(cfg, max(n.values()) if n else 0) if isinstance(n, dict) else int(n)
+        allowed = allowed_of(ent)
         b = ss[0]["body"]
         lines = sorted(s["line"] for s in ss)
+        if len(ss) > allowed:
+            fk = (b.file, key.split("|", 1)[1])
+            need = len(ss) - allowed
+            if slack.get(fk, 0) >= need:
+                slack[fk] -= need
+                n_moved += need
+                allowed = len(ss)
         if len(ss) <= allowed:
+            ent = ent or {}
             if ent.get("status") == "confirmed":
                 n_conf += len(ss)
             else:
@@ -185,6 +206,7 @@ def run_sites(chk, facts, rid, cfg):
     chk.stats[f"{rid}:{cfg}:discharged_by_analysis"] = n_ok
     chk.stats[f"{rid}:{cfg}:tolerated_confirmed"] = n_conf
     chk.stats[f"{rid}:{cfg}:tolerated_untriaged_not_claimed"] = n_untri
+    chk.stats[f"{rid}:{cfg}:tolerated_as_moved_within_file"] = n_moved
     return sites, n_ok
 
 
